@@ -132,7 +132,9 @@ def run_case(ctx, root, n, gens, out_mode, big_request=False):
             specs.append((path, g, name))
         argv += ["-G", path + ",who=g%d" % gi]
     before = gc.snapshot()
-    res = gc.run(argv, timeout=40)
+    # the deadlock witness would sit out the whole watchdog; idle for 15 s with < 1 s of CPU is as much a hang as idle for 40 s
+    limit = 15 if "flood-before-reading" in gens else 40
+    res = gc.run(argv, timeout=limit)
     after = gc.snapshot()
     invoked = gc.invoked()
     replay = {"kind": "binary", "argv": argv, "generators": gens, "output": out_mode, "observed": res.brief(), "invoked": invoked,
@@ -145,7 +147,7 @@ def run_case(ctx, root, n, gens, out_mode, big_request=False):
         if res.timed_out:
             if res.cpu_s < 1.0:
                 ctx.violate("hang:" + "+".join(sorted(set(g.split("-")[0] for g in gens if g != "ok"))),
-                            "slicec hung (idle, %.2f s CPU in 40 s) with generators %r" % (res.cpu_s, gens), replay)
+                            "slicec hung (idle, %.2f s CPU in %d s) with generators %r" % (res.cpu_s, limit, gens), replay)
             else:
                 ctx.inconclusive.append({"gens": gens, "why": "watchdog with cpu %.1f" % res.cpu_s})
             return
